@@ -103,3 +103,10 @@ impl PlainFramer {
     self.0.try_read_msgs_from_bytes(data, accumulator)
   }
 }
+
+// --- inproc pairing verdict -------------------------------------------------------------------
+
+/// The verdict the inproc transport gives for a (connector, binder) pair of socket types.
+pub fn inproc_compatible(connector: crate::socket::types::SocketType, binder: crate::socket::types::SocketType) -> bool {
+  crate::transport::inproc::handshake::validate_socket_compatibility(connector, binder).is_ok()
+}
